@@ -83,6 +83,13 @@ def plans(seed, tier, count):
             {'sec': 'TDS', 'field': 'fixt', 'value': 0, 'channel': 'both', 'rc_value': 1}]},
         {'property': PROP, 'seed': 32, 'variant': 'attr_then_save', 'fields': [
             {'sec': 'TDS', 'field': 'tstep', 'value': 0.02, 'channel': 'attr'}, {'sec': 'PQ', 'field': 'p2p', 'value': 1.0, 'channel': 'attr'}]},
+        # signed integers written as text (seeded change C20-isdigit-signed-float: only unsigned digit strings stayed integers)
+        {'property': PROP, 'seed': 33, 'variant': 'positive', 'fields': [
+            {'sec': 'TDS', 'field': 'ddelta_limit', 'value': -90, 'channel': 'option'}]},
+        {'property': PROP, 'seed': 34, 'variant': 'positive', 'fields': [
+            {'sec': 'TDS', 'field': 'ddelta_limit', 'value': -90, 'channel': 'rc'}]},
+        {'property': PROP, 'seed': 35, 'variant': 'attr_then_save', 'fields': [
+            {'sec': 'TDS', 'field': 'ddelta_limit', 'value': -90, 'channel': 'attr'}]},
     ]
     ref_alt = declared_alternatives()
     j = 0
@@ -107,7 +114,10 @@ def new_value(r, default, alt):
     if isinstance(default, bool):
         return default
     if isinstance(default, int):
-        return default + r.choice([1, 2, 5]) if default >= 0 else default - 1
+        val = default + r.choice([1, 2, 5]) if default >= 0 else default - 1
+        if alt is None and r.random() < 0.3:
+            val = -abs(val) - 1          # an unrestricted integer field: a signed value must stay an integer on every channel
+        return val
     if isinstance(default, float):
         return round(default * r.choice([0.5, 1.5, 2.0]) + (0.0 if default else 0.25), 9)
     return default
